@@ -74,17 +74,18 @@ type Frame struct {
 }
 
 type Config struct {
-	g      *Term
-	gor    *Gor
-	stack  []*Frame
-	phase  int
-	fuel   bool
-	held   map[*Cell]*Term // ghost lockset: mutex cell -> BV2 mode (0 none, 1 read, 2 write)
-	done   bool
-	atomic int // >0: inside verifAtomic (visible ops run inline)
-	inHook int
-	ok     []int
-	mk     string
+	g           *Term
+	gor         *Gor
+	stack       []*Frame
+	phase       int
+	fuel        bool
+	held        map[*Cell]*Term // ghost lockset: mutex cell -> BV2 mode (0 none, 1 read, 2 write)
+	done        bool
+	feasChecked int
+	atomic      int // >0: inside verifAtomic (visible ops run inline)
+	inHook      int
+	ok          []int
+	mk          string
 }
 
 type Gor struct {
@@ -152,6 +153,7 @@ type Engine struct {
 	stepMax       int
 	noPOR         bool
 	randLog       []RandRec
+	settleFeas    int
 	beforeHooks   map[string]Value
 	unwindFn      map[string]int
 	usedMemo      map[string]map[ssa.Value]bool
@@ -1017,4 +1019,28 @@ func (e *Engine) feasible(g *Term) bool {
 		fmt.Fprintf(os.Stderr, "FEAS %s %dms (n=%d)\n", r.Status, r.Dur.Milliseconds(), e.feasN)
 	}
 	return res
+}
+
+// feasibleWith: solver feasibility of a guard together with the global constraints (unknown = feasible).
+func (e *Engine) feasibleWith(g *Term) bool {
+	if g.IsFalse() {
+		return false
+	}
+	if e.feas == nil || e.feas.dead {
+		sv, err := NewSolver("z3-new", "")
+		if err != nil {
+			return true
+		}
+		sv.useTac = true
+		e.feas = sv
+	}
+	as := append(append([]*Term{}, e.constraints...), g)
+	r := e.feas.Check(as, 4000, false)
+	e.feasN++
+	e.feasMs += r.Dur.Milliseconds()
+	if r.Status == "unsat" {
+		e.feasCut++
+		return false
+	}
+	return true
 }
